@@ -79,7 +79,7 @@ func c15SweepCount(tier string) int {
 // may itself look like the index file's name.
 var c15Dir = "/canary/arch"
 
-var c15Dirs = []string{"/canary/arch", "/canary/set.par2.d", "/canary/set.par", "/canary/old set.par2 copy", "/canary/set.par2"}
+var c15Dirs = []string{"/canary/arch", "/canary/set.par2.d", "/canary/set.par", "/canary/old set.par2 copy", "/canary/set.par2", "/canary/arch.v1", "/canary/.hidden.d"}
 
 func c15Disk() (*simdisk.Mem, map[string][]byte) {
 	d := simdisk.NewMem()
@@ -205,7 +205,7 @@ func buildHostileShadow(d *simdisk.Mem, par1Set bool, names []string, contents [
 func containment(r *Run) {
 	t := r.T
 	c15SweepCount(r.Tier)
-	c15Dir = c15Dirs[t.Pick([]int{4, 1, 1, 1, 1}, "archive-dir")]
+	c15Dir = c15Dirs[t.Pick([]int{4, 1, 1, 1, 1, 1, 1}, "archive-dir")]
 	defer func() { c15Dir = "/canary/arch" }()
 	var par1Set bool
 	var names []string
